@@ -690,4 +690,91 @@ theorem tryParse_append (b p q : Bytes) (hdef : (tryParse b p).definitive = true
       simp only [PRes.ext, List.length_append, Result.parsed.injEq, true_and]
       omega
 
+/-! ## the fuel of the two loops never runs out -/
+
+theorem nextLine_shorter {lines l r : Bytes} (h : nextLine lines = some (l, r)) : r.length < lines.length := by
+  rcases nextLine_cases lines with ⟨_, hn⟩ | ⟨l', r', hs, hn⟩ | ⟨_, hne, hn⟩
+  · rw [hn] at h; cases h
+  · rw [hn] at h
+    simp only [Option.some.injEq, Prod.mk.injEq] at h
+    obtain ⟨rfl, rfl⟩ := h
+    rw [splitCrlf_eq_some hs]; simp; omega
+  · rw [hn] at h
+    simp only [Option.some.injEq, Prod.mk.injEq] at h
+    obtain ⟨rfl, rfl⟩ := h
+    cases lines with
+    | nil => exact absurd rfl hne
+    | cons _ _ => simp
+
+theorem splitToLoop_fuel (pat self : Bytes) : ∀ (n m : Nat) (lines : Bytes) (len : Nat),
+    lines.length < n → lines.length < m →
+    splitToLoop pat self n lines len = splitToLoop pat self m lines len := by
+  intro n
+  induction n with
+  | zero => intro m lines len h; omega
+  | succ k ih =>
+    intro m lines len hn hm
+    cases m with
+    | zero => omega
+    | succ j =>
+      rw [splitToLoop, splitToLoop]
+      cases hnl : nextLine lines with
+      | none => rfl
+      | some lr =>
+        obtain ⟨l, r⟩ := lr
+        have := nextLine_shorter hnl
+        simp only
+        split
+        · rfl
+        · exact ih j r _ (by omega) (by omega)
+
+theorem partsStep_congr (b : Bytes) (k k' : Bytes → List (Bytes × Bytes) → PRes) (s : Bytes)
+    (fields : List (Bytes × Bytes)) (h : ∀ s' f', Shorter s' s → k s' f' = k' s' f') :
+    partsStep b k s fields = partsStep b k' s fields := by
+  unfold partsStep
+  cases hh : parseHeaders s with
+  | more => rfl
+  | error => rfl
+  | complete rest hdrs =>
+    have hrest := parseHeaders_shorter hh
+    simp only
+    cases lastHeader nameCD hdrs none with
+    | none => rfl
+    | some cdv =>
+      simp only
+      cases parseCD cdv with
+      | none => rfl
+      | some nf =>
+        obtain ⟨name, fn⟩ := nf
+        cases fn with
+        | some _ => rfl
+        | none =>
+          simp only
+          cases hsp : splitTo (dashBoundary b) rest with
+          | none => rfl
+          | some ar =>
+            obtain ⟨ans, rest'⟩ := ar
+            have hr' := splitTo_suffix hsp
+            have hsh : Shorter rest' s := ⟨hr'.1.trans hrest.1, by have := hr'.2; have := hrest.2; omega⟩
+            simp only
+            rw [h rest' _ hsh]
+
+/-- every fuel above the slice length gives the same answer: the `fuel = 0` branch of `partsLoop` is dead
+    in `tryParse` -/
+theorem partsLoop_fuel (b : Bytes) : ∀ (n m : Nat) (s : Bytes) (fields : List (Bytes × Bytes)),
+    s.length < n → s.length < m → partsLoop b n s fields = partsLoop b m s fields := by
+  intro n
+  induction n with
+  | zero => intro m s fields h; omega
+  | succ k ih =>
+    intro m s fields hn hm
+    cases m with
+    | zero => omega
+    | succ j =>
+      rw [partsLoop, partsLoop]
+      apply partsStep_congr
+      intro s' f' hsh
+      exact ih j s' f' (by have := hsh.2; omega) (by have := hsh.2; omega)
+
+
 end S3V.Multipart
